@@ -91,6 +91,7 @@ type iteration struct {
 	fieldMappings   map[int]int
 	offsetsCh       chan common.OffsetsBySource
 	errCh           chan error
+	err             error
 }
 
 // CreateTable creates a table based on the given opts.
@@ -491,8 +492,10 @@ func (db *DB) doProcessIterations(iterations []*iteration) {
 			}
 			itMore, err := it.onValue(dims, itVals)
 			if err != nil {
+				// Fail only this iteration, others continue unaffected
 				it.t.log.Errorf("Error while iterating: %v", err)
-				return false, err
+				it.err = err
+				itMore = false
 			}
 			if !itMore {
 				// This iteration doesn't want any more data, stop feeding it
@@ -516,7 +519,11 @@ func (db *DB) doProcessIterations(iterations []*iteration) {
 	}
 	for _, it := range iterations {
 		it.offsetsCh <- offsetsBySource
-		it.errCh <- err
+		if it.err != nil {
+			it.errCh <- it.err
+		} else {
+			it.errCh <- err
+		}
 	}
 }
 
